@@ -96,6 +96,27 @@ def setup(repo):
                     return o(*a, **k)
                 return g
             cls.register_method(fn, wrap2())
+    # second, unregistered instances of the same backend classes: selected by OBJECT ("<name>_alt")
+    ALT = {"be": {}, "ta": {}}
+    REG = {"be": {}, "ta": {}}
+    for n in ("numpy", "jax", "cupy"):
+        tl.set_backend(n)
+        REG["be"][n] = tl.backend.current_backend()
+        ALT["be"][n + "_alt"] = type(REG["be"][n])()
+    for n in ("core", "einsum"):
+        tenalg.set_backend(n)
+        REG["ta"][n] = tenalg.current_backend()
+        ALT["ta"][n + "_alt"] = type(REG["ta"][n])()
+    setup.ALT = ALT
+
+    def inst_tag(m, obj):
+        for n, o_ in REG[m].items():
+            if obj is o_:
+                return n
+        for n, o_ in ALT[m].items():
+            if obj is o_:
+                return n
+        return "other:" + str(getattr(obj, "backend_name", "?"))
     tl.set_backend("numpy")
     tenalg.set_backend("core")
     vec = np.ones(2)
@@ -116,6 +137,7 @@ def setup(repo):
         try:
             o["be"]["state"]["get"] = str(tl.get_backend())
             o["be"]["state"]["cur"] = str(tl.backend.current_backend().backend_name)
+            o["be"]["inst"] = {"obj": inst_tag("be", tl.backend.current_backend())}
             r = tl.backend.arcsinh(0.0)
             o["be"]["attr"]["fdisp"] = r if isinstance(r, str) else "numpy"
             o["be"]["attr"]["adisp"] = str(tl.backend.backend_name)
@@ -133,6 +155,7 @@ def setup(repo):
         try:
             o["ta"]["state"]["get"] = str(tenalg.get_backend())
             o["ta"]["state"]["cur"] = str(tenalg.current_backend().backend_name)
+            o["ta"]["inst"] = {"obj": inst_tag("ta", tenalg.current_backend())}
             ran.name = "norun"
             tenalg.outer([vec, vec])
             o["ta"]["attr"]["fdisp"] = ran.name
@@ -149,6 +172,11 @@ def setup(repo):
             o["ta"]["state"]["get"] = "error:" + type(ex).__name__
         return o
     return MGR, observe
+
+
+def _arg(m, name):
+    """The argument of a selection: a name, or -- for "<name>_alt" -- a backend INSTANCE."""
+    return setup.ALT.get(m, {}).get(name, name)
 
 
 class Actor:
@@ -189,7 +217,7 @@ class Actor:
                 continue
             if op == "Set":
                 try:
-                    mgr.set_backend(cmd["name"], local_threadsafe=cmd["loc"])
+                    mgr.set_backend(_arg(cmd["m"], cmd["name"]), local_threadsafe=cmd["loc"])
                     self.outbox.put(("ok", ""))
                 except Exception as ex:
                     self.outbox.put(("raised", type(ex).__name__))
@@ -203,7 +231,7 @@ class Actor:
                 entered = False
                 r = None
                 try:
-                    with mgr.backend_context(cmd["name"], local_threadsafe=cmd["loc"]):
+                    with mgr.backend_context(_arg(cmd["m"], cmd["name"]), local_threadsafe=cmd["loc"]):
                         entered = True
                         self.outbox.put(("ok", ""))
                         r = self.level(depth + 1)
@@ -337,9 +365,9 @@ def main():
                         if op["ev"] in ("Static", "Dynamic"):
                             (mgr.use_static_dispatch if op["ev"] == "Static" else mgr.use_dynamic_dispatch)()
                         elif op["ev"] == "Set":
-                            mgr.set_backend(op["name"], local_threadsafe=op["loc"])
+                            mgr.set_backend(_arg(op["m"], op["name"]), local_threadsafe=op["loc"])
                         elif op["ev"] == "Enter":
-                            cm = mgr.backend_context(op["name"], local_threadsafe=op["loc"])
+                            cm = mgr.backend_context(_arg(op["m"], op["name"]), local_threadsafe=op["loc"])
                             cm.__enter__()
                             stack.append((cm, op["m"]))
                         elif op["ev"] == "Exit":
